@@ -50,6 +50,8 @@ def mk_lo8(t):
         return mk_be(t[1], 3 - t[2][1] // 8)
     if t[0] == 'and' and is_c(t[2]) and (t[2][1] & M8) == M8:
         return mk_lo8(t[1])
+    if t[0] == 'or' and is_c(t[2]):
+        return mk_or(mk_lo8(t[1]), C(t[2][1] & M8))
     return ('lo8', t)
 
 
@@ -58,6 +60,9 @@ def mk_be(t, k):
         return C((t[1] >> (8 * (3 - k))) & M8)
     if t[0] == 'frombe':
         return t[1][k]
+    if t[0] == 'or' and is_c(t[2]):
+        # a constant or-ed into the word is or-ed into each of its bytes: be(v | c, k) = be(v, k) | be(c, k)
+        return mk_or(mk_be(t[1], k), C((t[2][1] >> (8 * (3 - k))) & M8))
     if k == 3:
         return ('lo8', t)
     return ('be', t, k)
